@@ -83,6 +83,17 @@ CLAIMED["C17"] = dict(
     technique="Lean 4 inductive invariant over all interleavings and thread counts + regenerated facts + concurrent hammer",
     ref="DESIGN.md §6 C17")
 
+CLAIMED["C16"] = dict(
+    text="Lean theorems: status decision tables for ALL inputs (function: OK iff err = nil; shell: OK iff Run returned no error, with exit code under the os/exec contract; curl: OK iff a response exists and 200 <= code < 400, every Nat code); the accessors show exactly the fields of the execution whose atomic store happened last, never a mixture, for every schedule of concurrent executions (C16_last_execution, generic over the critical section, instantiated for the three jobs; negative control without the lock); one callback per completed execution; a CurlJob holds at most one open response body in every reachable state, also concurrently, with the proved negative control for the unrepaired leak. Tie: regenerated facts (operators and constants of the status tests, Close before Do under the lock, all stored fields assigned between one Lock and one Unlock, one callback site after Unlock, CommandContext/WithContext) + differential: all exit codes 0-255, all HTTP codes 100-599 (scripted handler) and 200-599 (loopback server), execution sequences on one job, cancellation, leak counters 100 vs 300 executions.",
+    note="os/exec, net/http internals (connection release, process reaping) are observed (goroutine/fd/process counts), not proved",
+    technique="Lean 4 decision-table and interleaving proofs + regenerated facts + exhaustive differential over finite code spaces",
+    ref="DESIGN.md §6 C16")
+CLAIMED["C18"] = dict(
+    text="Lean theorems: a record is emitted iff threshold <= level for EVERY Int threshold and the five levels (LevelOff silences all as a corollary); the line is msg= followed by all arguments in order (structural and positional specification, odd tail, none); in EVERY interleaving of any number of goroutines logging through the mutex each emitted line carries the prefix of the level it was logged at, and each goroutine's enabled records are written exactly once in order (C18_label, C18_complete); proved negative control without the mutex (two goroutines, mislabelled line); NoOp emits nothing; slog level map Trace=-8..Error=8 and attrs in order. Tie: regenerated facts (six level constants, five prefixes, operator in enabled, method->constant/prefix table, Lock/defer Unlock/SetPrefix/Output shape, formatMessage loop, slog level arguments) + exact line differential for all level/threshold/argument shapes + 16-goroutine self-describing messages.",
+    note="log.Logger's own atomic line write, fmt rendering of non-string args and slog handler behaviour are observed",
+    technique="Lean 4 proofs (filter, format, interleaving invariant) + regenerated facts + exact line differential",
+    ref="DESIGN.md §6 C18")
+
 REASON_PENDING = "check not built yet (build phase in progress); planned per DESIGN.md §6"
 
 m = {
